@@ -3,6 +3,7 @@ use std::any::type_name;
 use std::backtrace::Backtrace;
 use std::cell::UnsafeCell;
 use std::fmt;
+#[cfg(not(folo_verif))]
 use std::hint::spin_loop;
 use std::marker::PhantomPinned;
 use std::mem::{MaybeUninit, offset_of};
@@ -13,8 +14,14 @@ use std::ptr::NonNull;
 use std::sync::Arc;
 #[cfg(any(debug_assertions, test))]
 use std::sync::Mutex;
+#[cfg(not(folo_verif))]
 use std::sync::atomic::{self, AtomicU8};
 use std::task::Waker;
+
+#[cfg(folo_verif)]
+use crate::verif_sync::atomic::{self, AtomicU8};
+#[cfg(folo_verif)]
+use crate::verif_sync::spin_loop;
 
 #[cfg(debug_assertions)]
 use crate::NEVER_POISONED;
